@@ -73,7 +73,7 @@ def gen(seed, tier):
         for op in ("isempty", "count", "nonempty"):
             yield {"prop": PROP, "op": op, "d": 1, "da": 0, "a": a, "kind": "free"}
     rng = random.Random(seed)
-    nrand = 4000 if tier == "quick" else 80000
+    nrand = 10000 if tier == "quick" else 80000
     for i in range(nrand):
         d = rng.choice([0, 1, 1, 2])
         da = rng.choice([0, 0, 7])
